@@ -36,7 +36,7 @@ func TestVerifC18Signals(t *testing.T) {
 		return
 	}
 	L := ev.Begin("C18", "c18-signals", "model_checking",
-		"explicit enumeration of every signal history over {SIGHUP, SIGTERM, SIGINT} up to length 2 (thorough 3), each replayed against the real main() in a child process (static registry, real listeners, proxy.shutdownwait=6s) with one request in flight that the upstream answers only after the whole history was delivered; barriers are causal (child log lines 'Caught SIG..', handler-entered, listener-refuses-connect). oracle: SIGHUP before the first exit signal leaves the proxy serving; after the first SIGTERM/SIGINT new connections are refused, the in-flight request completes normally whatever further signals arrive during the drain, and the process ends by itself with status 0 within the wait; plus one run with proxy.deregistergraceperiod=3s, wait 4s and a request that ends 5.5s after the signal (the wait is owed after the grace period); plus one run with a tcp-dynamic listener (refresh 200ms, wait 3s) and a TCP connection in flight: the dynamic port serves no new connection at any probe (every 20ms) during the 2s after it closed. non-trivial = histories with a signal after the shutdown began")
+		"explicit enumeration of every signal history over {SIGHUP, SIGTERM, SIGINT} up to length 2 (thorough 3), each replayed against the real main() in a child process (static registry, real listeners, proxy.shutdownwait=6s) with one request in flight that the upstream answers only after the whole history was delivered; barriers are causal (child log lines 'Caught SIG..', handler-entered, listener-refuses-connect). oracle: SIGHUP before the first exit signal leaves the proxy serving; after the first SIGTERM/SIGINT new connections are refused, the in-flight request completes normally whatever further signals arrive during the drain, and the process ends by itself with status 0 within the wait; plus one run with proxy.deregistergraceperiod=3s, wait 4s and a request that ends 5.5s after the signal (the wait is owed after the grace period); plus one run with a tcp-dynamic listener (refresh 200ms, wait 3s) and a TCP connection in flight: the dynamic port serves no new connection at any probe (every 20ms) during the 2s after it closed; plus one run with a websocket tunnel in flight whose upstream sends its last message 1s after the signal (wait 3s): the client receives it. non-trivial = histories with a signal after the shutdown began")
 	sigs := []syscall.Signal{syscall.SIGHUP, syscall.SIGTERM, syscall.SIGINT}
 	maxLen := ev.EnvInt("C18_SIGNALS", 2)
 	if ev.Thorough() {
@@ -122,6 +122,19 @@ func TestVerifC18Signals(t *testing.T) {
 		L.Sample(d)
 		if sig != "" {
 			L.Violation(sig+"/tcp-dynamic", d)
+		}
+	}
+	// a websocket tunnel is a request in flight like any other: one that ends 1s after the exit
+	// signal (wait 3s) delivers its last message
+	{
+		sig, d := c18RunWS()
+		L.Case()
+		L.NontrivialKey("websocket")
+		transitions++
+		L.Outcome(fmt.Sprint(d["outcome"]))
+		L.Sample(d)
+		if sig != "" {
+			L.Violation(sig+"/websocket", d)
 		}
 	}
 	L.AddStates(int64(len(states)))
@@ -394,6 +407,202 @@ func c18RunSignalsOnce(h []syscall.Signal, wait, grace string, hold time.Duratio
 	states = append(states, "down")
 	d["outcome"] = "drained, exit 0"
 	return "", d, states
+}
+
+// c18Child is a fabio started through the real main() in a child process.
+type c18Child struct {
+	cmd    *exec.Cmd
+	exited chan error
+	mu     sync.Mutex
+	logged []string
+	done   bool
+	cursor int
+}
+
+func c18StartChild(fabioArgs []string) *c18Child {
+	args, _ := json.Marshal(fabioArgs)
+	ch := &c18Child{exited: make(chan error, 1)}
+	ch.cmd = exec.Command(os.Args[0], "-test.run", "^TestVerifC18Signals$", "-test.timeout", "120s")
+	ch.cmd.Env = append([]string{"VERIF_C18_CHILD=" + string(args)}, c18EnvWithout("VERIF_OUT", "VERIF_C18_CHILD")...)
+	stderr, err := ch.cmd.StderrPipe()
+	if err != nil {
+		panic(err)
+	}
+	ch.cmd.Stdout = io.Discard
+	if err := ch.cmd.Start(); err != nil {
+		panic("VERIF-INFRA: " + err.Error())
+	}
+	go func() {
+		sc := bufio.NewScanner(stderr)
+		sc.Buffer(make([]byte, 1<<20), 16<<20)
+		for sc.Scan() {
+			ch.mu.Lock()
+			ch.logged = append(ch.logged, sc.Text())
+			ch.mu.Unlock()
+		}
+		ch.mu.Lock()
+		ch.done = true
+		ch.mu.Unlock()
+	}()
+	go func() { ch.exited <- ch.cmd.Wait() }()
+	return ch
+}
+
+func (ch *c18Child) gone() bool {
+	ch.mu.Lock()
+	defer ch.mu.Unlock()
+	return ch.done
+}
+
+// waitLine waits for a log line of the child that contains sub, reading on from where the last call stopped.
+func (ch *c18Child) waitLine(sub string) bool {
+	deadline := time.Now().Add(60 * time.Second)
+	for {
+		ch.mu.Lock()
+		for ch.cursor < len(ch.logged) {
+			l := ch.logged[ch.cursor]
+			ch.cursor++
+			if strings.Contains(l, sub) {
+				ch.mu.Unlock()
+				return true
+			}
+		}
+		done := ch.done
+		ch.mu.Unlock()
+		if done || time.Now().After(deadline) {
+			return false
+		}
+		time.Sleep(2 * time.Millisecond)
+	}
+}
+
+func c18FreeAddr() string {
+	l, err := net.Listen("tcp", "127.0.0.1:0")
+	if err != nil {
+		panic(err)
+	}
+	defer l.Close()
+	return l.Addr().String()
+}
+
+func c18RunWS() (sig string, d map[string]interface{}) {
+	for attempt := 0; ; attempt++ {
+		sig, d = c18RunWSOnce()
+		if sig != "child-did-not-come-up" {
+			return
+		}
+		if attempt == 2 {
+			panic("VERIF-INFRA: fabio child did not come up in 3 attempts: " + fmt.Sprint(d["startup"]))
+		}
+	}
+}
+
+func c18RunWSOnce() (sig string, d map[string]interface{}) {
+	d = map[string]interface{}{"signals": []string{"SIGTERM"}, "shutdown_wait": "3s", "in_flight": "websocket tunnel, last message 1s after the signal"}
+	entered := make(chan struct{}, 16)
+	release := make(chan struct{})
+	released := false
+	defer func() {
+		if !released {
+			close(release)
+		}
+	}()
+	up := httptest.NewServer(http.HandlerFunc(func(w http.ResponseWriter, r *http.Request) {
+		if r.URL.Path != "/ws" {
+			io.WriteString(w, "reply for "+r.URL.Path)
+			return
+		}
+		c, _, err := w.(http.Hijacker).Hijack()
+		if err != nil {
+			return
+		}
+		defer c.Close()
+		io.WriteString(c, "HTTP/1.1 101 Switching Protocols\r\nUpgrade: websocket\r\nConnection: Upgrade\r\n\r\n")
+		entered <- struct{}{}
+		<-release
+		io.WriteString(c, "last message")
+	}))
+	defer up.Close()
+	proxyAddr, uiAddr := c18FreeAddr(), c18FreeAddr()
+	ch := c18StartChild([]string{"fabio", "-insecure", "-log.level", "INFO", "-registry.backend", "static",
+		"-registry.static.routes", "route add svc / " + up.URL + "/\n", "-proxy.addr", proxyAddr, "-ui.addr", uiAddr, "-proxy.shutdownwait", "3s"})
+	defer func() { ch.cmd.Process.Kill() }()
+	cl := &http.Client{Transport: &http.Transport{DisableKeepAlives: true}, Timeout: 30 * time.Second}
+	ready := false
+	for i := 0; i < 24000 && !ready && !ch.gone(); i++ {
+		if resp, err := cl.Get("http://" + proxyAddr + "/ready"); err == nil {
+			b, _ := io.ReadAll(resp.Body)
+			resp.Body.Close()
+			ready = resp.StatusCode == 200 && string(b) == "reply for /ready"
+		}
+		if !ready {
+			time.Sleep(5 * time.Millisecond)
+		}
+	}
+	if !ready {
+		d["startup"] = "not routing"
+		return "child-did-not-come-up", d
+	}
+	inflight := make(chan string, 1)
+	go func() {
+		c, err := net.DialTimeout("tcp", proxyAddr, 2*time.Second)
+		if err != nil {
+			inflight <- "error: " + err.Error()
+			return
+		}
+		defer c.Close()
+		io.WriteString(c, "GET /ws HTTP/1.1\r\nHost: "+proxyAddr+"\r\nUpgrade: websocket\r\nConnection: Upgrade\r\nSec-WebSocket-Key: dGhlIHNhbXBsZSBub25jZQ==\r\nSec-WebSocket-Version: 13\r\n\r\n")
+		c.SetReadDeadline(time.Now().Add(30 * time.Second))
+		b, err := io.ReadAll(c)
+		txt := string(b)
+		if i := strings.Index(txt, "\r\n\r\n"); i >= 0 {
+			txt = strings.SplitN(txt, "\r\n", 2)[0] + " | " + txt[i+4:]
+		}
+		if err != nil {
+			txt += " | error: " + err.Error()
+		}
+		inflight <- txt
+	}()
+	select {
+	case <-entered:
+	case <-time.After(20 * time.Second):
+		panic("VERIF-INFRA: the websocket request never reached the upstream")
+	}
+	time.Sleep(100 * time.Millisecond) // lets fabio pass the 101 on; nothing is asserted on it
+	if err := ch.cmd.Process.Signal(syscall.SIGTERM); err != nil {
+		d["outcome"] = "process gone before the signal"
+		return "process-ended-before-the-shutdown-was-requested", d
+	}
+	if !ch.waitLine("Caught SIGTERM") {
+		d["outcome"] = "exit signal not handled"
+		return "exit-signal-not-handled", d
+	}
+	time.Sleep(time.Second)
+	released = true
+	close(release)
+	select {
+	case r := <-inflight:
+		d["in_flight_result"] = r
+		if r != "HTTP/1.1 101 Switching Protocols | last message" {
+			d["outcome"] = "tunnel cut before its last message"
+			return "in-flight-tunnel-ending-within-the-wait-was-cut", d
+		}
+	case <-time.After(30 * time.Second):
+		d["outcome"] = "tunnel never completed"
+		return "in-flight-tunnel-never-completed", d
+	}
+	select {
+	case err := <-ch.exited:
+		if err != nil {
+			d["outcome"], d["exit"] = "abnormal exit", err.Error()
+			return "process-did-not-end-its-shutdown-normally", d
+		}
+	case <-time.After(30 * time.Second):
+		d["outcome"] = "process still running after the wait"
+		return "process-did-not-exit-within-the-wait", d
+	}
+	d["outcome"] = "drained, exit 0"
+	return "", d
 }
 
 func c18RunDynamic() (sig string, d map[string]interface{}) {
